@@ -382,6 +382,14 @@ def _returned_value(e):
     return None
 
 
+def _is_failure_value(e):
+    """`Err(..)` or `None`"""
+    e = H.strip(e)
+    if e.get("k") == "Call":
+        return (H.callee_path(e) or "").rsplit("::", 1)[-1] == "Err" and (e.get("ty") or "").startswith(("std::result::Result<", "core::result::Result<"))
+    return e.get("k") == "Path" and (e.get("path") or "").rsplit("::", 1)[-1] == "None" and (e.get("ty") or "").startswith(("std::option::Option<", "core::option::Option<"))
+
+
 def _literal_match(arms):
     """<= 3 arms, each a string/char/bool/int literal (or an or-pattern of them) except a final wildcard / binding: reads as an
     if / else-if chain of equality tests. Larger matches are tables and stay opaque."""
@@ -1825,6 +1833,11 @@ class CallExpander:
                     ee = H.strip(st["e"])
                     if ee.get("k") == "If" and not ee.get("else") and _returned_value(ee["then"]) is not None:
                         folded |= {id(y) for y in H.exprs(ee["then"]) if y.get("k") == "Ret"}
+                elif st.get("k") == "Let" and st.get("els") is not None:
+                    # `let PAT = init else { return Err(..) / None }`: the value summary follows the path on which PAT matched, as `?` does
+                    rv = _returned_value({"k": "Block", "b": st["els"]})
+                    if rv is not None and _is_failure_value(rv):
+                        folded |= {id(y) for y in H.exprs({"k": "Block", "b": st["els"]}) if y.get("k") == "Ret"}
         for x in H.exprs(nb["value"]):
             if x.get("k") == "Loop":
                 return None
